@@ -943,3 +943,115 @@ Proof.
     cbn [obind omap fst snd]; try reflexivity.
   rewrite upd_0_rev' by exact Hrs. reflexivity.
 Qed.
+
+(* ---------- add_nx1: a loop with an early `return` (for_range_ret) ---------- *)
+Definition add_nx1_body : Z -> (list Z * Z) -> outcome (ctl (list Z * Z) (Z * list Z)) :=
+  fun i_lhs t_5 => let '(lhs, a) := t_5 in
+    do t_2 <- idx lhs i_lhs ; do t_3 <- g_dw_add t_2 a ; let '(t_1, a) := (g_dw_split t_3) in
+    do _ <- idx lhs i_lhs ; let lhs := upd lhs i_lhs t_1 in
+    if (a =? 0) then ( Val (Ret (0, lhs))) else
+    Val (Cont (lhs, a)).
+
+Lemma g_add_nx1_unfold lhs a :
+  g_add_nx1 lhs a =
+  (if (a =? 0) then ( Val (0, lhs)) else
+   do t_4 <- for_range_ret 0 ((lenZ lhs)) (lhs, a) add_nx1_body ;
+   match t_4 with Ret r_ => Val r_ | Cont (lhs, a) => Val (a, lhs) end).
+Proof. reflexivity. Qed.
+
+Lemma add_nx1_loop_ret l : forall pre a, Forall inW l -> inW a ->
+  (do c <- for_loop_ret (length l) (Z.of_nat (length pre)) (pre ++ l, a) add_nx1_body ;
+   match c with Ret r_ => Val r_ | Cont (l2, a2) => Val (a2, l2) end)
+  = Val (snd (add_nx1_loop l a), pre ++ fst (add_nx1_loop l a)).
+Proof.
+  induction l as [|x l IH]; intros pre a Hl Ha.
+  - cbn [length for_loop_ret add_nx1_loop obind fst snd]. reflexivity.
+  - inversion Hl as [|? ? Hx Hl']; subst.
+    cbn [length for_loop_ret add_nx1_loop]. unfold add_nx1_body at 1. cbv beta iota.
+    rewrite idx_app_mid. cbn [obind]. rewrite g_dw_add_eq by assumption. cbn [obind].
+    assert (Hs : 0 <= x + a < BB) by (unfold inW in *; rewrite BB_sq; pose proof B_pos; nia).
+    rewrite g_dw_split_eq by exact Hs. rewrite (hi_hi128 _ Hs). change (lo128 (x + a)) with (lo (x + a)).
+    cbv beta iota. rewrite ?idx_app_mid. cbn [obind]. rewrite upd_app_mid.
+    destruct (hi (x + a) =? 0) eqn:E0; cbn [obind].
+    + cbn [fst snd]. reflexivity.
+    +       replace (pre ++ lo (x + a) :: l) with ((pre ++ [lo (x + a)]) ++ l) by (rewrite <- app_assoc; reflexivity).
+      replace (Z.of_nat (length pre) + 1) with (Z.of_nat (length (pre ++ [lo (x + a)])))
+        by (rewrite app_length; cbn [length]; lia).
+      rewrite (IH (pre ++ [lo (x + a)]) (hi (x + a)) Hl' (hi_inW _ Hs)).
+      destruct (add_nx1_loop l (hi (x + a))) as [rs c]. cbn [fst snd]. rewrite <- app_assoc. reflexivity.
+Qed.
+
+Lemma g_add_nx1_eq lhs a : Forall inW lhs -> inW a ->
+  g_add_nx1 lhs a = Val (snd (add_nx1 lhs a), fst (add_nx1 lhs a)).
+Proof.
+  intros Hl Ha. rewrite g_add_nx1_unfold. unfold add_nx1.
+  destruct (a =? 0); [reflexivity|].
+  unfold for_range_ret, lenZ. replace (Z.to_nat (Z.of_nat (length lhs) - 0)) with (length lhs) by lia.
+  pose proof (add_nx1_loop_ret lhs [] a Hl Ha) as E. cbn [length app Z.of_nat] in E. exact E.
+Qed.
+
+(* ---------- algorithms::cmp: downward loop with early `return` and no state ---------- *)
+Definition cmp_body (lhs rhs : list Z) : Z -> unit -> outcome (ctl unit comparison) :=
+  fun k_i t_8 => let i := 0 + k_i in
+    do t_3 <- idx lhs i ; do t_4 <- idx rhs i ; do t_5 <- idx lhs i ; do t_6 <- idx rhs i ;
+    match (((b2z ((t_4 <? t_3)))) - ((b2z ((t_5 <? t_6))))) with
+    | (Zneg xH) => Val (Ret Lt) | 0 => Val (Cont tt) | 1 => Val (Ret Gt) | _ => Panic end.
+
+Lemma g_slice_cmp_unfold left right :
+  g_slice_cmp left right =
+  (let l := (Z.min ((lenZ left)) ((lenZ right))) in
+   do t_1 <- subslice left 0 l ; let lhs := t_1 in
+   do t_2 <- subslice right 0 l ; let rhs := t_2 in
+   do t_7 <- for_down_ret (Z.to_nat (l - 0)) tt (cmp_body lhs rhs) ;
+   match t_7 with Ret r_ => Val r_ | Cont _ => Val (Z.compare ((lenZ left)) ((lenZ right))) end).
+Proof. reflexivity. Qed.
+
+Lemma cmp_loop a : forall b, length a = length b ->
+  for_down_ret (length a) tt (cmp_body a b)
+  = Val (match Add.cmp_rev (rev a) (rev b) with Eq => Cont tt | c => Ret c end).
+Proof.
+  induction a as [|x a IH] using rev_ind; intros b Hl.
+  - destruct b; [|discriminate]. reflexivity.
+  - destruct b as [|y b] using rev_ind; [rewrite app_length in Hl; cbn in Hl; lia|]. clear IHb.
+    rewrite !app_length in Hl. cbn [length] in Hl.
+    rewrite app_length. cbn [length]. rewrite Nat.add_1_r. cbn [for_down_ret].
+    unfold cmp_body at 1. cbv zeta. replace (0 + Z.of_nat (length a)) with (Z.of_nat (length a)) by lia.
+    rewrite !idx_app_mid. replace (Z.of_nat (length a)) with (Z.of_nat (length b)) by lia.
+    rewrite !idx_app_mid. cbn [obind].
+    rewrite !rev_app_distr. cbn [rev app Add.cmp_rev].
+    destruct (Z.ltb_spec y x); destruct (Z.ltb_spec x y); try lia; cbn [b2z Z.sub Z.add Z.opp Z.pos_sub obind].
+    + reflexivity.
+    + reflexivity.
+    + (* equal limbs: continue with the lower ones; the body only reads below the current index *)
+      assert (Hext : forall k (u : unit), (k < length a)%nat ->
+                cmp_body (a ++ [x]) (b ++ [y]) (Z.of_nat k) u = cmp_body a b (Z.of_nat k) u).
+      { intros k u Hk. unfold cmp_body. cbv zeta. replace (0 + Z.of_nat k) with (Z.of_nat k) by lia.
+        unfold idx. rewrite !Nat2Z.id. rewrite !nth_error_app1 by lia. reflexivity. }
+      assert (Hloop : forall n, (n <= length a)%nat ->
+                for_down_ret n tt (cmp_body (a ++ [x]) (b ++ [y])) = for_down_ret n tt (cmp_body a b)).
+      { induction n as [|n IHn]; intros Hn; [reflexivity|]. cbn [for_down_ret].
+        rewrite Hext by lia. destruct (cmp_body a b (Z.of_nat n) tt) as [[[]|r]| | | |]; cbn [obind]; try reflexivity.
+        apply IHn. lia. }
+      rewrite Hloop by lia. apply IH. lia.
+Qed.
+
+Lemma subslice_prefix (l : list Z) k : (k <= length l)%nat ->
+  subslice l 0 (Z.of_nat k) = Val (firstn k l).
+Proof.
+  intros H. unfold subslice, lenZ.
+  replace ((0 <=? 0) && (0 <=? Z.of_nat k) && (Z.of_nat k <=? Z.of_nat (length l))) with true by lia.
+  replace (Z.to_nat (Z.of_nat k - 0)) with k by lia. reflexivity.
+Qed.
+
+Lemma g_slice_cmp_eq left right : g_slice_cmp left right = Val (Add.limbs_cmp left right).
+Proof.
+  rewrite g_slice_cmp_unfold. unfold Add.limbs_cmp, lenZ. cbv zeta.
+  rewrite <- Nat2Z.inj_min. set (l := Nat.min (length left) (length right)).
+  rewrite (subslice_prefix left l) by (unfold l; lia). cbn [obind].
+  rewrite (subslice_prefix right l) by (unfold l; lia). cbn [obind].
+  replace (Z.to_nat (Z.of_nat l - 0)) with (length (firstn l left)) by (rewrite firstn_length; unfold l; lia).
+  rewrite (cmp_loop (firstn l left) (firstn l right)) by (rewrite !firstn_length; unfold l; lia).
+  cbn [obind].
+  destruct (Add.cmp_rev (rev (firstn l left)) (rev (firstn l right))); try reflexivity.
+  f_equal. apply Nat2Z.inj_compare.
+Qed.
